@@ -824,7 +824,7 @@ class Extractor:
         body_src_lo, body_src_hi = toks[it.body_open].end, toks[it.body_close].start
         for c in contracts:
             for p in c.proofs:
-                block = '\n proof {\n%s\n }\n' % p.text
+                block = ('\n%s\n' % p.text) if p.raw else ('\n proof {\n%s\n }\n' % p.text)
                 if p.where == 'body-start':
                     edits.append(Edit(body_src_lo, body_src_lo, block, ('inj', 'proof', p.src, 'proof')))
                 elif p.where == 'fn-end':
@@ -839,6 +839,55 @@ class Extractor:
                         edits.append(Edit(st_start, st_start, block, ('inj', 'proof', p.src, 'proof')))
                     else:
                         edits.append(Edit(st_end, st_end, block, ('inj', 'proof', p.src, 'proof')))
+        # R10 closure contracts: `|n| EXPR` -> `|n: T| -> (cr: U) requires .. ensures .. { EXPR }` (body text untouched)
+        cspecs = {}
+        for c in contracts:
+            for n_, sp in c.closures.items():
+                cspecs[n_] = sp
+        if cspecs:
+            found = []
+            k = lo
+            while k < hi:
+                t = toks[k]
+                if t.text == '|' and toks[k - 1].text in ('(', ',', '=') :
+                    j = k + 1
+                    while j < hi and toks[j].text != '|':
+                        j += 1
+                    found.append((k, j))
+                    k = j + 1
+                    continue
+                k += 1
+            for n_, sp in cspecs.items():
+                if n_ < 1 or n_ > len(found):
+                    self.report['unanchored'].append({'what': '%s closure %d' % (path, n_), 'src': sp.src})
+                    continue
+                k0, k1 = found[n_ - 1]
+                # body extent
+                b0 = k1 + 1
+                if toks[b0].text == '{':
+                    b1 = match_close(toks, b0)
+                    wrap = False
+                else:
+                    j = b0
+                    while j < hi:
+                        tj = toks[j]
+                        if tj.kind == 'open':
+                            j = match_close(toks, j) + 1; continue
+                        if tj.kind == 'close' or tj.text == ',':
+                            break
+                        j += 1
+                    b1 = j - 1
+                    wrap = True
+                hdr = sp.header
+                cl = ''
+                if sp.requires:
+                    cl += ' requires ' + ', '.join(self._subst(x.text) for x in sp.requires)
+                if sp.ensures:
+                    cl += ' ensures ' + ', '.join(self._subst(x.text) for x in sp.ensures)
+                edits.append(Edit(toks[k0].start, toks[k1].end, hdr + cl + (' {' if wrap else ''), ('inj', 'closure-contract', sp.src, 'closure')))
+                if wrap:
+                    edits.append(Edit(toks[b1].end, toks[b1].end, ' }', ('gen', 'R10')))
+                self.log_rule('R10', relfile, toks[k0].line, 'closure %d of %s annotated' % (n_, path))
         # R7 outlines
         for c in contracts:
             for o in c.outlines:
